@@ -6,6 +6,7 @@ import (
 	"encoding/hex"
 	"fmt"
 	"math/rand"
+	"net"
 	"strings"
 )
 
@@ -76,6 +77,90 @@ func blockyBytes(r *rand.Rand, n int) []byte {
 		}
 	}
 	return b
+}
+
+// ipv4Class returns an address from one of the special-purpose IPv4 blocks (RFC 6890) or a plain random one: predicates
+// of the standard library (IsLinkLocalUnicast, IsLoopback, IsMulticast, IsPrivate, IsUnspecified ...) and home-made
+// validity checks single these blocks out, and a uniformly random address hits most of them with probability < 2^-16.
+// To the emulator an address is four octets.
+func ipv4Class(r *rand.Rand) net.IP {
+	x, y, z := byte(r.Intn(256)), byte(r.Intn(256)), byte(r.Intn(256))
+	switch r.Intn(16) {
+	case 0:
+		return net.IPv4(169, 254, y, z) // link local
+	case 1:
+		return net.IPv4(127, x, y, z) // loopback
+	case 2:
+		return net.IPv4(224+x%16, x, y, z) // multicast
+	case 3:
+		return net.IPv4(240+x%16, x, y, z) // reserved / broadcast neighbourhood
+	case 4:
+		return net.IPv4(0, x, y, z) // "this network"
+	case 5:
+		return net.IPv4(100, 64+x%64, y, z) // shared address space
+	case 6:
+		return net.IPv4(192, 0, pick(r, byte(0), 2), z) // protocol assignments / documentation
+	case 7:
+		return net.IPv4(198, 18+x%2, y, z) // benchmarking
+	case 8:
+		return net.IPv4(192, 88, 99, z) // 6to4 relay
+	case 9:
+		return net.IPv4(pick(r, byte(10), 172, 192), pick(r, byte(16), 168, 31, x), y, z) // private
+	case 10:
+		return net.IPv4(255, 255, 255, 255)
+	case 11:
+		return net.IPv4(0, 0, 0, 0)
+	case 12:
+		return net.IPv4(x, y, z, pick(r, byte(0), 255)) // network / broadcast looking host part
+	}
+	return net.IPv4(x, y, z, byte(r.Intn(256)))
+}
+
+// ipv6Class: the same for IPv6 (link local, multicast, unique local, loopback, unspecified, documentation, mapped, NAT64).
+func ipv6Class(r *rand.Rand) net.IP {
+	ip := net.IP(rbytes(r, 16))
+	switch r.Intn(12) {
+	case 0:
+		copy(ip, []byte{0xfe, 0x80, 0, 0, 0, 0, 0, 0})
+	case 1:
+		ip[0], ip[1] = 0xff, byte(r.Intn(16))
+	case 2:
+		ip[0] = 0xfc + byte(r.Intn(2))
+	case 3:
+		ip = net.ParseIP("::1")
+	case 4:
+		ip = net.ParseIP("::")
+	case 5:
+		copy(ip, []byte{0x20, 0x01, 0x0d, 0xb8})
+	case 6:
+		copy(ip, []byte{0, 0, 0, 0, 0, 0, 0, 0, 0, 0, 0xff, 0xff})
+	case 7:
+		copy(ip, []byte{0, 0x64, 0xff, 0x9b, 0, 0, 0, 0, 0, 0, 0, 0})
+	case 8:
+		copy(ip, []byte{0xfe, 0xc0}) // deprecated site local
+	}
+	return ip
+}
+
+// sdString: a slice differentiator as configuration files and APIs spell it - six hex digits in lower, upper or mixed
+// case (TS 29.571 allows all three), with the reserved value ffffff and letter-free values among them.
+func sdString(r *rand.Rand) string {
+	s := hexs(rbytes(r, 3))
+	switch r.Intn(8) {
+	case 0:
+		return strings.ToUpper(s)
+	case 1: // mixed case
+		b := []byte(s)
+		for i := range b {
+			if r.Intn(2) == 0 {
+				b[i] = byte(strings.ToUpper(string(b[i]))[0])
+			}
+		}
+		return string(b)
+	case 2:
+		return pick(r, "ffffff", "FFFFFF", "000000", "0A0B0C", "abcdef", "ABCDEF", "00000a", "00000A")
+	}
+	return s
 }
 
 func pick[T any](r *rand.Rand, xs ...T) T { return xs[r.Intn(len(xs))] }
